@@ -302,11 +302,69 @@ def rule_time_check_shape(ctx, rep, rid: str) -> None:
 
 
 # ----------------------------------------------------------------------- C02-R1
-def _linear_len_terms(e: ast.AST) -> Optional[Dict[str, float]]:
-    """e as sum of len(X)*c terms -> {X: c}; None if not of that shape."""
+def _const_lower_bound(e: ast.AST) -> Optional[float]:
+    """A lower bound of a non-negative cost expression: constants, sums, and products with len(..) (>= 0)."""
+    if isinstance(e, ast.Constant) and isinstance(e.value, (int, float)) and not isinstance(e.value, bool):
+        return float(e.value)
+    if isinstance(e, ast.BinOp) and isinstance(e.op, ast.Add):
+        a, b = _const_lower_bound(e.left), _const_lower_bound(e.right)
+        return None if a is None or b is None else a + b
+    if isinstance(e, ast.BinOp) and isinstance(e.op, ast.Mult):
+        for x, y in ((e.left, e.right), (e.right, e.left)):
+            if isinstance(x, ast.Call) and norm(x.func) == "len" and _const_lower_bound(y) is not None and _const_lower_bound(y) >= 0:
+                return 0.0
+        return None
+    if isinstance(e, ast.Call) and norm(e.func) == "len":
+        return 0.0
+    return None
+
+
+def companion_counters(ctx) -> Dict[str, Dict[str, Any]]:
+    """Counters the interpreter keeps ALONGSIDE its call stack: an attribute that is increased in the statement next to
+    a push of self.call_stack.  attribute text -> {'per_frame': lower bound of the increase, 'pushes': [...]}.  (Helper
+    methods such as _push_frame are read as their statements by the loader.)"""
+    got = ctx.__dict__.get("_companions")
+    if got is not None:
+        return got
+    vmcls = ctx.facts.vm_dispatcher()[0].cls
+    out: Dict[str, Dict[str, Any]] = {}
+    for m in vmcls.all_methods:
+        if isinstance(m.node, ast.Lambda):
+            continue
+        for st in m.own_nodes():
+            if not (isinstance(st, ast.Expr) and isinstance(st.value, ast.Call) and norm(st.value.func) == "self.call_stack.append"):
+                continue
+            par = getattr(st, "_parent", None)
+            for field in ("body", "orelse", "finalbody"):
+                blk = getattr(par, field, None)
+                if isinstance(blk, list) and any(q is st for q in blk):
+                    i = [k for k, q in enumerate(blk) if q is st][0]
+                    for nb in blk[max(0, i - 1): i + 2]:
+                        if isinstance(nb, ast.AugAssign) and isinstance(nb.op, ast.Add) and norm(nb.target).startswith("self."):
+                            v = nb.value
+                            # the cost may come from a small pure method: read its return expression
+                            if isinstance(v, ast.Call) and isinstance(v.func, ast.Attribute) and norm(v.func.value) == "self":
+                                h = ctx.tree.find_method(vmcls, v.func.attr)
+                                rets = [r.value for r in (h.own_nodes() if h is not None else []) if isinstance(r, ast.Return) and r.value is not None]
+                                v = rets[0] if len(rets) == 1 else v
+                            lb = _const_lower_bound(v)
+                            d = out.setdefault(norm(nb.target), {"per_frame": lb, "pushes": []})
+                            d["pushes"].append((m, st.lineno))
+                            if lb is not None and (d["per_frame"] is None or lb < d["per_frame"]):
+                                d["per_frame"] = lb
+    ctx.__dict__["_companions"] = out
+    return out
+
+
+def _linear_len_terms(e: ast.AST, companions: Optional[Dict[str, Dict[str, Any]]] = None) -> Optional[Dict[str, float]]:
+    """e as sum of len(X)*c terms -> {X: c}; None if not of that shape.  A counter kept alongside the call stack
+    (increased by at least k at every push) counts as k per frame."""
     out: Dict[str, float] = {}
 
     def term(t) -> bool:
+        if companions and norm(t) in companions and companions[norm(t)]["per_frame"] is not None:
+            out["self.call_stack"] = out.get("self.call_stack", 0) + companions[norm(t)]["per_frame"]
+            return True
         if isinstance(t, ast.BinOp) and isinstance(t.op, ast.Add):
             return term(t.left) and term(t.right)
         if isinstance(t, ast.BinOp) and isinstance(t.op, ast.Mult):
@@ -350,7 +408,7 @@ def rule_memory_check_shape(ctx, rep, rid: str) -> None:
             if pol and txt in ("self.memory_limit", "self.memory_limit is not None"):
                 continue
             if pol and isinstance(a2, ast.Compare) and len(a2.ops) == 1 and isinstance(a2.ops[0], (ast.Gt, ast.GtE)) and norm(a2.comparators[0]) == "self.memory_limit":
-                terms = _linear_len_terms(a2.left)
+                terms = _linear_len_terms(a2.left, companion_counters(ctx))
                 if terms is None:
                     probs.append(f"usage estimate {norm(a2.left)} is not a positive linear combination of stack lengths")
                 else:
@@ -1053,3 +1111,60 @@ def rule_one_deadline(ctx, rep, rid: str) -> None:
             rep.bad(rid, key, f"{m.qual} stamps start_time unconditionally, overwriting a deadline inherited by a nested interpreter", loc)
         else:
             rep.ok(rid, key, {"guards": g})
+
+
+# ---- what is counted at every push is given back at every pop ------------------------------------------------------
+def _decreases(ctx, vmcls, st: ast.stmt, attr: str, depth: int) -> bool:
+    """st takes something off the counter: `attr -= ..` itself, or a call of a method of the interpreter whose body does
+    so outside any branch (the clean-up helper the return paths share)."""
+    if isinstance(st, ast.AugAssign) and isinstance(st.op, ast.Sub) and norm(st.target) == attr:
+        return True
+    if depth <= 0 or not isinstance(st, (ast.Expr, ast.Assign)):
+        return False
+    for c in ast.walk(st):
+        if isinstance(c, ast.Call) and isinstance(c.func, ast.Attribute) and norm(c.func.value) == "self":
+            h = ctx.tree.find_method(vmcls, c.func.attr)
+            if h is not None and any(_decreases(ctx, vmcls, b, attr, depth - 1) for b in h.body()):
+                return True
+    return False
+
+
+def rule_companion_counter_maintained(ctx, rep, rid: str) -> None:
+    """When the interpreter keeps a running total next to its call stack (the estimated size of the frames, say) and
+    the limit check reads that total, every place that takes a frame off the stack has to take its share off the total:
+    the unwinding loop of a throw pops frames too, and a total that only ever grows stops a bounded program that
+    catches enough exceptions."""
+    rep.rule(rid, "a counter that is increased next to every push of the call stack is decreased next to every pop of it (the pops of return and of exception unwinding alike), or the interpreter keeps no such counter", floor=1)
+    comps = companion_counters(ctx)
+    if not comps:
+        rep.ok(rid, "call-stack:no-companion-counter", {"note": "the limit check measures the stacks themselves"})
+        return
+    vmcls = ctx.facts.vm_dispatcher()[0].cls
+    for attr, info in sorted(comps.items()):
+        n = 0
+        ordinal: Dict[str, int] = {}
+        for m in vmcls.all_methods:
+            if isinstance(m.node, ast.Lambda):
+                continue
+            for c in m.own_nodes():
+                if not (isinstance(c, ast.Call) and norm(c.func) == "self.call_stack.pop"):
+                    continue
+                n += 1
+                st = c
+                while not isinstance(st, ast.stmt):
+                    st = st._parent
+                par = getattr(st, "_parent", None)
+                paired = False
+                for field in ("body", "orelse", "finalbody"):
+                    blk = getattr(par, field, None)
+                    if isinstance(blk, list) and any(q is st for q in blk):
+                        i = [k for k, q in enumerate(blk) if q is st][0]
+                        paired = any(_decreases(ctx, vmcls, nb, attr, 2) for nb in blk[max(0, i - 1): i + 3])
+                ordinal[m.qual] = ordinal.get(m.qual, 0) + 1
+                key = f"{m.qual}:call_stack.pop#{ordinal[m.qual]}:{attr}"
+                if paired:
+                    rep.ok(rid, key)
+                else:
+                    rep.bad(rid, key, f"{m.qual} pops a frame off the call stack (line {c.lineno}) without decreasing {attr}, which {info['pushes'][0][0].name} increases at every push and the limit check reads: frames discarded here (by an exception that unwinds them) stay charged, so a bounded program that catches enough exceptions is stopped with MemoryLimitError", f"{m.module.rel}:{c.lineno}")
+        if n == 0:
+            raise AnalysisError(f"{rid}: no pop of the call stack found")
